@@ -185,6 +185,16 @@ def check_c18(tier):
         for _ in range(rng.range(5, 30)):
             probes += [rng.below(2)] + [rng.range(0, 4) for _ in range(nc)] + [rng.range(0, 4)]
         dcases.append((head, probes))
+    # first insertions under FRESH keys: all threads record one member of an antichain under key r at about the same time (thread t handles
+    # the inserts k with k % nthreads = t, so the j-th insert of every thread is for key j); every member must survive
+    for _ in range(6 if tier == "quick" else 40):
+        nth = rng.choice([2, 4, 8]); R = rng.range(300, 800)
+        head = [0, 2, nth]; probes = []
+        for key in range(R):
+            for i in range(nth):
+                head += [key, 2 * i + 1, 2 * (nth - 1 - i) + 1, 0]
+                probes += [key, 2 * i, 2 * (nth - 1 - i), 0]
+        dcases.append((head, probes))
     path = workfile("c18_dpar.txt")
     with open(path, "w") as f:
         for h, p in dcases: f.write("Q " + " ".join(map(str, h)) + " | " + " ".join(map(str, p)) + "\n")
@@ -195,7 +205,7 @@ def check_c18(tier):
         if li == lm: dpar_ok += 1
         else:
             chk.violation("property", "after concurrent inserts (%d threads) the dominance store does not answer like the Pareto front of "
-                          "the recorded states: impl %s model %s" % (h[2], li, lm), {"inserts": h, "probes": p, "impl": li, "model": lm})
+                          "the recorded states: impl %s model %s" % (h[2], li, lm), {"inserts": h[:400], "probes": p[:200], "impl": li[:400], "model": lm[:400]})
     chk.cov.update({"evaluations": len(cases) + len(pcases) + len(dcases), "distinct_nontrivial": len(nontrivial),
                     "rule": "all operation sequences up to length %d over the 19-symbol alphabet {update(2 states x 2 depths x 2 values x 2 flags), "
                             "clear_layer 0/1, clear} with every key read back after every operation; seeded random sequences (length 4..40) with "
